@@ -46,6 +46,20 @@ add("C24", "E-SIM", "model-based property testing: generated histories from 2-3 
 add("C25", "E-SIM", "property-based testing: generated timestamps around minimum_separation; invariants over everything ever presented",
     "Two known findings (filter forgets taken samples; older-timestamp arrival) are excluded by signature; the in-cache in-order filter and the no-over-filtering direction stay guarded.", CACHE_NOTE)
 
+add("C15", "E-SIM", "property-based testing: independently generated writer-side and reader-side QoS (one policy at a time and all at once), oracle = DDS request/offered table + partition rules (R-RXO), both sides' verdicts compared",
+    "Held on N generated QoS pairs; pattern-vs-pattern partitions not judged; callback multiplicity left to C33.", SIM_NOTE)
+
+# checks built by helper engines: metadata comes from tools/fragments/<ID>.json
+FRAGMENT_ENGINE = {"C08": "E-CODEC", "C14": "E-CODEC", "C38": "E-CODEC", "C34": "E-CHAN", "C42": "E-RT", "C40": "E-GEN", "C41": "E-GEN",
+                   "C09": "E-CODEC", "C10": "E-CODEC", "C11": "E-CODEC", "C12": "E-CODEC", "C39": "E-CODEC", "C07": "E-CODEC", "C13": "E-CODEC",
+                   "C28": "E-SIM", "C35": "E-SIM", "C36": "E-SIM", "C37": "E-SIM", "C30": "E-SIM", "C31": "E-SIM", "C32": "E-SIM", "C33": "E-SIM"}
+READY = set(json.load(open(os.path.join(ROOT, "tools", "ready.json"))))
+for _pid, _eng in FRAGMENT_ENGINE.items():
+    _fp = os.path.join(ROOT, "tools", "fragments", _pid + ".json")
+    if _pid in READY and os.path.exists(_fp) and _pid not in CHECKS:
+        _f = json.load(open(_fp))
+        add(_pid, _eng, str(_f.get("technique", "property-based testing")), str(_f.get("level_text", "")), str(_f.get("level_note", "")))
+
 def main():
     props = [json.loads(l) for l in open(os.path.join(ROOT, "properties.jsonl"))]
     reasons = {}
